@@ -322,62 +322,47 @@ func runC15(c *Ctx) {
 	{
 		g := NewGate(c.P)
 		g.Inline = inlineOnly()
+		g.Search = true
+		g.Pure[FuncName(crm)] = true // CosmeticRule.Match reads the rule and the hostname only (C13.R1)
 		s := g.Eval(isWL)
 		u := g.U
 		ps := g.ParamExprs(isWL)
 		host, rule := ps[wlHost], ps[wlRule]
-		loops := loopsOf(isWL)
 		bad := ""
-		// lookup key is rule.Content in a field of the table
-		var lk *ssa.Lookup
-		eachInstr(isWL, func(_ *ssa.BasicBlock, in ssa.Instruction) {
-			if l, ok := in.(*ssa.Lookup); ok {
-				lk = l
-			}
-		})
+		// canonical search form: result == exists(table.<field>[rule.Content], Match(exception, hostname))
 		wlField := ""
-		if lk == nil {
-			bad = "UNDECIDED: no map lookup"
-		} else {
-			ke := s.Env[lk.Index]
-			me := s.Env[lk.X]
-			if ke == nil || ke.Op != "field" || ke.Aux != "Content" || ke.Args[0] != rule {
-				bad = "exceptions are not looked up under the rule's content: " + clip(u.Show(ke), 80)
-			}
-			if me != nil && me.Op == "field" {
-				wlField = me.Aux
+		res := g.RetExpr(s, 0)
+		var ex *E
+		if isBoolE(res) {
+			for _, at := range u.AtomsOf(u.ToBool(res)) {
+				if at.Op == "exists" {
+					ex = at
+				}
 			}
 		}
-		// returns true iff some element matches hostname
-		nTrue := 0
-		for _, r := range s.Rets {
-			v := r.Vals[0]
-			if v.Op == "bool" && v.B == True {
-				nTrue++
-				okR := false
-				for _, ef := range s.Effects {
-					if ef.Kind == "call" && ef.Call.Aux == calleeName(crm) && ef.Call.Args[1] == host && ef.Call.Args[0].Op == "index" && u.bdd.Implies(r.Cond, u.ToBool(ef.Call)) {
-						l := innermostLoop(loops, ef.Ins.Block())
-						if l != nil {
-							if ro := rangedOver(l); ro != nil && ro.Full {
-								// every element is tested; leaving early only on a match
-								body := u.bdd.And(s.RC[l.Header], contCond(u, s, l))
-								if s.RC[ef.Ins.Block()] == body && r.Cond == u.bdd.And(body, u.ToBool(ef.Call)) {
-									okR = true
-								}
-							}
-						}
-					}
+		switch {
+		case !isBoolE(res):
+			bad = "UNDECIDED: non-boolean result " + clip(u.Show(res), 80)
+		case ex == nil:
+			bad = "the exception test does not scan a list of exceptions (no complete scan returning true on a match found)"
+		default:
+			m, k := mapLookupOf(ex.Args[0])
+			pr := u.ToBool(ex.Args[1])
+			pats := u.AtomsOf(pr)
+			switch {
+			case m == nil || k == nil || k.Op != "field" || k.Aux != "Content" || k.Args[0] != rule:
+				bad = "exceptions are not looked up under the rule's content: " + clip(u.Show(ex.Args[0]), 80)
+			case len(pats) != 1 || pr != u.Atom(pats[0]) || pats[0].Op != "call" || pats[0].Aux != calleeName(crm) || len(pats[0].Args) < 2 || pats[0].Args[0].Op != "bvar" || pats[0].Args[1] != host:
+				bad = "the scan does not test Match(exception, hostname) for each exception: " + clip(u.ShowBool(pr), 100)
+			default:
+				if m.Op == "field" {
+					wlField = m.Aux
 				}
-				if !okR && bad == "" {
+				extra, missed := sameAsExists(u, u.ToBool(res), ex)
+				if extra || missed {
 					bad = "the exception test does not return true exactly when some exception with this content matches the hostname"
 				}
-			} else if !(v.Op == "bool" && v.B == False) && bad == "" {
-				bad = "UNDECIDED: non-constant result " + clip(u.Show(v), 80)
 			}
-		}
-		if nTrue == 0 && bad == "" {
-			bad = "the exception test never returns true"
 		}
 		c.Check(bad == "", "C15.R4", shortFn(isWL)+": looked up by content; true iff an exception matches the hostname", isWL.Pos(), "whitelist[rule.Content] scanned completely with Match(exception, hostname)", bad)
 
@@ -422,27 +407,25 @@ func runC15(c *Ctx) {
 			} else if ce := s2.Env[coll]; ce == nil || ce.key != pd.key || keyUpd.Key.Op != "index" || keyUpd.Key.Args[0] != ce {
 				bad = "the keying loop does not range over the rule's permitted domains with the domain as key"
 			} else {
-				// reached only if no domain has the wildcard suffix: a complete pre-scan exits (without keying) on HasSuffix(domain, ".*")
+				// reached only if no domain has the wildcard suffix (pre-scan loop, helper or slices.ContainsFunc)
 				pre := false
-				for _, l := range loops2 {
-					ro := rangedOver(l)
-					if ro == nil || !ro.Full || s2.Env[ro.Coll] == nil || s2.Env[ro.Coll].key != pd.key || l.Blocks[keyUpd.Ins.Block()] {
-						continue
-					}
-					body := u2.bdd.And(s2.RC[l.Header], contCond(u2, s2, l))
-					for _, ex := range l.Exits {
-						if ex[0] == l.Header {
-							continue
-						}
-						ec := edgeCondOf(u2, s2, ex[0], ex[1])
-						for _, at := range u2.AtomsOf(ec) {
-							if at.Op == "call" && at.Aux == "strings.HasSuffix" && isStr(at.Args[1], ".*") && at.Args[0].Op == "index" && ec == u2.bdd.And(body, u2.Atom(at)) {
-								if u2.bdd.Implies(s2.RC[keyUpd.Ins.Block()], u2.bdd.Not(contCond(u2, s2, l))) {
-									pre = true
-								}
+				{
+					g3 := NewGate(c.P)
+					g3.Inline = g2.Inline
+					g3.Search = true
+					s3 := g3.Eval(tblAdd)
+					u3 := g3.U
+					pd3 := u3.Field(g3.ParamExprs(tblAdd)[1], "permittedDomains", nil)
+					nUpd, nOK := 0, 0
+					for _, ef := range s3.Effects {
+						if ef.Kind == "mapupdate" && ef.Addr.Op == "field" && ef.Addr.Aux != wlField {
+							nUpd++
+							if impliesNoElemCall(u3, ef.Cond, pd3, "strings.HasSuffix", ".*") {
+								nOK++
 							}
 						}
 					}
+					pre = nUpd > 0 && nUpd == nOK
 				}
 				if !pre {
 					bad = "rules with a wildcard-TLD domain (example.*) are exact-keyed: no hostname ever equals that key"
